@@ -53,7 +53,7 @@ theorem ends_after_nak (c : Client) (l : Line) (h1 : l.args[1]? = some CAP_NAK) 
     (h_CAP c l).out = [CAPEND] := by
   have e1 : (CAP_NAK == CAP_LS) = false := by decide
   have e2 : (CAP_NAK == CAP_ACK) = false := by decide
-  simp [h_CAP, arg, h1, emit_capEnd, e1, e2]
+  simp [h_CAP, handleCapNak, arg, h1, emit_capEnd, e1, e2]
 
 /-- an ACK ends negotiation unless it starts SASL (sasl configured and acknowledged), in which case the
 mechanism name is sent instead -/
